@@ -25,6 +25,7 @@ MAP = [
     ("truncated target", ["C09", "C19", "C05"]),
     ("never started the shrinker", ["C05"]),
     ("does not fit in one journal transaction", ["C09", "C10", "C05", "C07"]),
+    ("not a single data block", ["C15", "C04"]),
 ]
 log = subprocess.run(["git", "-C", "/repo", "log", "--reverse", "--format=%h\t%s"], stdout=subprocess.PIPE, text=True).stdout
 p = os.path.join(VERIF, "known_findings.json")
